@@ -11,6 +11,7 @@ exit 0: held on what was observed (KNOWN-FINDING lines may be printed)
 exit 1: violation (VIOLATION property=<id> replay=<path>)
 exit 2: inconclusive (INCONCLUSIVE property=<id> reason=...)
 """
+import glob
 import hashlib
 import json
 import os
@@ -247,6 +248,9 @@ def finish(prop, spec, tier, seed, merged, t0, extra_cov=None, extra_assume=None
     """Applies known findings, floors, writes evidence, prints verdict lines, returns exit code."""
     known = load_known()
     unlisted, reproduced = [], {}
+    # replays/<id>/ describes the latest run only
+    for old in glob.glob(os.path.join(VERIF, "replays", prop, "*.json")):
+        os.unlink(old)
     for sig, v in sorted(merged["violations"].items()):
         k = match_known(known, prop, sig)
         if k is not None:
